@@ -1,13 +1,14 @@
 (* C03 (WBXML side) — the tree builder: Model/TreeBuild.v (transcription of src/wbxml_tree_clb_wbxml.c on the
    tree primitives of wbxml_tree.c), and its composition with the parser (C04) and the XML generator (C05).
    Only statements, each closed by `exact`, with Print Assumptions beneath.
-   Proofs: Proofs/TreeBuildProofs{,2,3}.v. *)
+   Proofs: Proofs/TreeBuildProofs{,2,3}.v, Proofs/TreeRoundTrip.v. *)
 From Coq Require Import String.
 From Coq Require Import List NArith Bool.
 From Wbxml Require Import Model.Codec Model.TablesDefs Gen.TablesData Model.Parser Model.Spec Model.TreeBuild Model.TreeConv
      Proofs.ParserDepth Proofs.ParserProofsDoc Proofs.ParserProofsTyped Proofs.ParserProofsWv
-     Proofs.TreeBuildProofs Proofs.TreeBuildProofs2 Proofs.TreeBuildProofs3.
+     Proofs.TreeBuildProofs Proofs.TreeBuildProofs2 Proofs.TreeBuildProofs3 Proofs.TreeBuildEmbed Proofs.TreeRoundTrip.
 From Wbxml Require Model.EncXml Model.XmlRead Proofs.EncXmlProofs Proofs.EncXmlIndent.
+From Wbxml Require Model.EncWbxml Model.TreeNorm Proofs.EncWbxmlProofs Proofs.EncWbxmlSerialize Proofs.EncWbxmlDenote.
 Import ListNotations.
 Local Open Scope N_scope.
 
@@ -15,13 +16,13 @@ Local Open Scope N_scope.
    cannot fire): the tree built from the events of a successful parse is the abstract tree of those events -
    header language and charset; the root element with its attributes; spec_forest: elements nest as their
    start/end events do, every character-data event is a text node, PIs leave no trace; merge_text: adjacent
-   text nodes joined.  For every nesting fuel >= 1. *)
+   text nodes joined.  For every number of embedding levels. *)
 Theorem C03b_build_is_abstract_tree : forall tbl forced meta fuel bs evs,
   parse_with tbl forced meta fuel bs = POk evs -> no_data evs = true ->
   exists cs lid p1 t a inner p2 ch,
     evs = EvStartDoc cs lid :: (p1 ++ (EvStartElt t a :: inner ++ [EvEndElt t]) ++ p2) ++ [EvEndDoc]
     /\ all_pi p1 = true /\ all_pi p2 = true /\ spec_forest inner ch
-    /\ forall ef, build tbl (S ef) evs = BOk (mk_wtree lid cs (Some (TElt t a (merge_text ch)))).
+    /\ forall ef, build tbl ef evs = BOk (mk_wtree lid cs (Some (TElt t a (merge_text ch)))).
 Proof. exact build_is_spec. Qed.
 Print Assumptions C03b_build_is_abstract_tree.
 
@@ -31,7 +32,7 @@ Theorem C03b_build_denote : forall tbl d evs,
   exists cs lid p1 t a inner p2 ch,
     evs = EvStartDoc cs lid :: (p1 ++ (EvStartElt t a :: inner ++ [EvEndElt t]) ++ p2) ++ [EvEndDoc]
     /\ all_pi p1 = true /\ all_pi p2 = true /\ spec_forest inner ch
-    /\ forall ef, build tbl (S ef) evs = BOk (mk_wtree lid cs (Some (TElt t a (merge_text ch)))).
+    /\ forall ef, build tbl ef evs = BOk (mk_wtree lid cs (Some (TElt t a (merge_text ch)))).
 Proof.
   intros tbl d evs H Hn. apply (build_is_spec tbl 0 0 (S (length (serialize d))) (serialize d) evs); [|exact Hn].
   apply (parse_denote tbl); [intros l _ _; exact typed_wv_agree_proved|exact typed_datetime_agree_proved|exact H].
@@ -75,7 +76,7 @@ Theorem C05c_parse_build_enc_read_partial : forall tbl d evs,
   denote tbl d = Some evs -> no_data evs = true ->
   exists cs lid t a ch,
     parse tbl (S (length (serialize d))) (serialize d) = POk evs
-    /\ (forall ef, build tbl (S ef) evs = BOk (mk_wtree lid cs (Some (TElt t a (merge_text ch)))))
+    /\ (forall ef, build tbl ef evs = BOk (mk_wtree lid cs (Some (TElt t a (merge_text ch)))))
     /\ forall l o out,
         EncXmlProofs.lang_ok (EncXml.xlang_of l) = true ->
         EncXmlIndent.node_ok_g (EncXml.xlang_of l) o EncXml.proot None (to_xnode tbl l (TElt t a (merge_text ch))) = true ->
@@ -98,6 +99,104 @@ Proof.
   exists c. exact Hr.
 Qed.
 Print Assumptions C05c_parse_build_enc_read_partial.
+
+(* C03b (5) FULL, for ANY document, table, forced language, charset and fuel: the root of a tree that is built is an
+   ELEMENT - the root element of the document, with the tag and the attributes of its start event; language and
+   charset of the tree are those of the document's start event. *)
+Theorem C03b_root_is_element : forall tbl forced meta fuel bs evs ef t,
+  parse_with tbl forced meta fuel bs = POk evs -> build tbl ef evs = BOk t ->
+  exists cs lid p1 tg a inner p2 ch,
+    evs = EvStartDoc cs lid :: (p1 ++ (EvStartElt tg a :: inner ++ [EvEndElt tg]) ++ p2) ++ [EvEndDoc]
+    /\ t = mk_wtree lid cs (Some (TElt tg a ch)).
+Proof. exact build_root_element. Qed.
+Print Assumptions C03b_root_is_element.
+
+(* C03b (6) FULL: embedded documents nest at most as deep as the builder allows.  sle k n: no chain of more than k
+   nested TREE nodes in n.  A tree built with `levels` levels satisfies sle levels; wbxml_tree_from_wbxml builds with
+   WBXML_MAX_EMBEDDED_DEPTH = 1 (the repair of the embedded-document finding): an embedded document never contains
+   an embedded document - the content of a <Data> inside it stays character data. *)
+Theorem C03b_embedded_depth : forall tbl levels evs t, build tbl levels evs = BOk t -> tree_sle levels t = true.
+Proof. exact build_embed_depth. Qed.
+Print Assumptions C03b_embedded_depth.
+
+Theorem C03b_embedded_depth_one : forall tbl forced meta bs t,
+  wbxml_tree_from_wbxml tbl forced meta bs = BOk t -> tree_sle 1 t = true.
+Proof.
+  intros tbl forced meta bs t. unfold wbxml_tree_from_wbxml, tree_from_wbxml.
+  destruct (parse_with tbl forced meta (S (length bs)) bs) as [evs|e|]; try discriminate. exact (build_embed_depth tbl MAX_EMBEDDED_DEPTH evs t).
+Qed.
+Print Assumptions C03b_embedded_depth_one.
+
+(* C03 ROUND TRIP at model level, PARTIAL: the fragment for which the WBXML encoder's output is proved to be the
+   serialization of a strict document (C06: no string table, numeric public id, a language without typed content
+   or extension table, token tags 5..63 not binary-flagged, no attributes, text children) and, here, no element
+   named "Data" (the SyncML rule of the tree builder inspects names only).  For every such tree and option tuple,
+   wbxml_tree_from_wbxml (parser + tree builder, the language forced as wbxml2xml -l / the tree API do) applied to
+   the encoder's bytes gives back the NORMALISED source tree (TreeNorm.norm: blank-only text dropped, text trimmed,
+   unless keep-ws) in the builder's tree type: tn keeps page, token and name of a tag, turns a text into the C string
+   of its content (nothing when that is empty) and joins adjacent texts (merge_text), as wbxml_tree_add_node does.
+   Chain: C06_strict_decoding_yields_normalised_source_partial (encoder's bytes = serialize d, denote_with d = events
+   of the normalised tree), the parser theorem with a forced language (C04_parser_reports_denotation_forced), and the
+   tree builder on a document of the parser's shape (run_spec). *)
+Theorem C03b_roundtrip_fragment_partial : forall tblb TBL L l o p t opts nm ch,
+  EncWbxmlSerialize.frag_lang l = true -> EncWbxml.o_use_strtbl o = false -> EncWbxmlProofs.no_pid (EncWbxml.enc_env l o) = true ->
+  EncWbxmlSerialize.frag_node (EncWbxml.NElt (EncWbxml.TagTok p t opts nm) [] ch) = true ->
+  find (fun x => l_id x =? l_id L) TBL = Some L -> l_id L <> 0 ->
+  EncWbxmlDenote.tree_ok L 0 (EncWbxml.NElt (EncWbxml.TagTok p t opts nm) [] ch) = true ->
+  EncWbxml.o_version o < 4 -> EncWbxml.header_public_id (EncWbxml.enc_env l o) < 4294967296 ->
+  EncWbxml.header_public_id (EncWbxml.enc_env l o) <> 0 ->
+  no_data (flat_map EncWbxmlDenote.events_node (TreeNorm.norm (EncWbxml.o_keep_ws o) [EncWbxml.NElt (EncWbxml.TagTok p t opts nm) [] ch])) = true ->
+  exists bs, EncWbxml.enc_wbxml tblb l o [EncWbxml.NElt (EncWbxml.TagTok p t opts nm) [] ch] = EncWbxml.EOk bs /\
+    forall ef, tree_from_wbxml TBL (l_id L) 0 ef bs
+               = BOk (mk_wtree (l_id L) 106
+                        (hd_error (flat_map tn (TreeNorm.norm (EncWbxml.o_keep_ws o) [EncWbxml.NElt (EncWbxml.TagTok p t opts nm) [] ch])))).
+Proof. exact roundtrip_fragment. Qed.
+Print Assumptions C03b_roundtrip_fragment_partial.
+
+(* the hypotheses are satisfiable (the example of C06): <p> a </p><!-- second text blank --> in a one-tag language *)
+Example C03b_ex_roundtrip :
+  let L := mk_lang 9999 4 None None None (Some [mk_tag "p"%string 0 32 0]) None None None None in
+  let l := EncWbxml.mk_blang 9999 4 None (Some [EncWbxml.mk_btag [112] 0 32 0]) None None None in
+  let o := EncWbxml.mk_opts 3 false false false in
+  let t := EncWbxml.NElt (EncWbxml.TagTok 0 32 0 [112]) [] [EncWbxml.NText [32; 97; 32]; EncWbxml.NText [32; 32]] in
+  EncWbxml.enc_wbxml [] l o [t] = EncWbxml.EOk [3; 4; 106; 0; 96; 3; 97; 0; 1] /\
+  flat_map tn (TreeNorm.norm false [t]) = [TElt (TagTok 0 32 [112]) [] [TText [97]]] /\
+  tree_from_wbxml [L] 9999 0 1 [3; 4; 106; 0; 96; 3; 97; 0; 1]
+    = BOk (mk_wtree 9999 106 (Some (TElt (TagTok 0 32 [112]) [] [TText [97]]))).
+Proof. cbv zeta. repeat split; vm_compute; reflexivity. Qed.
+
+(* C05c, without the restriction to Data-free documents — PARTIAL only in the generator's hypotheses (node_ok_g:
+   names are XML names, text is XML characters, CDATA payloads ...; properties of the document's strings that WBXML
+   does not guarantee).  For ANY document that wbxml_tree_from_wbxml accepts - CDATA sections, base64 content and
+   embedded documents included, which the generator's reader theorem now covers - the tree has an element root; its
+   conversion (Model/TreeConv.v), written as XML in any mode and read back, is the document whose root element has
+   the root's name, the specified attributes and the content info_g specifies for THAT tree. *)
+Theorem C05c_tree_enc_read_partial : forall tbl forced meta ef bs t,
+  tree_from_wbxml tbl forced meta ef bs = BOk t ->
+  exists tg a ch, wt_root t = Some (TElt tg a ch) /\
+    forall l o out,
+      EncXmlProofs.lang_ok (EncXml.xlang_of l) = true ->
+      EncXmlIndent.node_ok_g (EncXml.xlang_of l) o EncXml.proot None (to_xnode tbl l (TElt tg a ch)) = true ->
+      EncXml.enc_xml_opts (EncXml.xlang_of l) o [to_xnode tbl l (TElt tg a ch)] = EncXml.XOk out ->
+      exists c s',
+        EncXmlIndent.info_g (EncXml.xlang_of l) o EncXml.proot (EncXml.est0 0) (to_xnode tbl l (TElt tg a ch))
+          = Some ([XmlRead.XT []; XmlRead.XE (EncXml.tname_bytes (to_tname l tg))
+                                              (EncXmlProofs.spec_attrs (EncXml.xlang_of l) o EncXml.proot (to_tname l tg) (map to_attr a)) c;
+                   XmlRead.XT (EncXml.nl_if o)], s') /\
+        forall fuel, (EncXmlProofs.node_fuel (to_xnode tbl l (TElt tg a ch)) + 2 <= fuel)%nat ->
+          XmlRead.read_xml fuel out =
+          XmlRead.ROk (EncXmlProofs.doc_of (EncXml.xlang_of l)
+                         [XmlRead.XE (EncXml.tname_bytes (to_tname l tg))
+                                     (EncXmlProofs.spec_attrs (EncXml.xlang_of l) o EncXml.proot (to_tname l tg) (map to_attr a)) c]).
+Proof.
+  intros tbl forced meta ef bs t H. unfold tree_from_wbxml in H.
+  destruct (parse_with tbl forced meta (S (length bs)) bs) as [evs|e|] eqn:Hp; try discriminate.
+  destruct (build_root_element tbl forced meta _ bs evs ef t Hp H) as (cs & lid & p1 & tg & a & inner & p2 & ch & _ & ->).
+  exists tg, a, ch. split; [reflexivity|].
+  intros l o out HL Hok Henc. cbn [to_xnode] in *.
+  exact (EncXmlIndent.read_enc_g (EncXml.xlang_of l) o (to_tname l tg) (map to_attr a) (map (to_xnode tbl l) ch) out HL Hok Henc).
+Qed.
+Print Assumptions C05c_tree_enc_read_partial.
 
 (* non-vacuity: <wml><card id="a">x</card></wml> *)
 Example C03b_ex_build :
